@@ -20,6 +20,7 @@ THEOREMS = [
     "Remoc.Table.Sys.resolves_once",
     "Remoc.Table.Sys.pending_only_if_held",
     "Remoc.Table.Sys.accepted_matches_peer",
+    "Remoc.Table.Sys.wireInvB_reachable",
 ]
 RULE = ("same runs as C07. Predicates on the real run: unanswered OpenPort requests on the wire never exceed the connect_queue the "
         "peer advertised (at every prefix); every connect/accept/inspect/request call returns at most once and none is pending "
